@@ -1,5 +1,7 @@
 // Model-refinement checks inside the simulated OS: C05 C06 C07 C08 C12 C14 C15, and C02 (sanitizer oracle).
 #include "checks_common.hpp"
+#include <functional>
+#include <set>
 #include <algorithm>
 
 
@@ -46,7 +48,17 @@ static Plan gen_c05(uint64_t seed, const std::string &tier) {
         case 0: case 1: case 2: { static const char lit[] = "ABCDEFGHIJKLMNOPQRSTUVWXYZ0123456789 .,-_/%{}:[]="; size_t n = r.chance(1, 8) ? (size_t)r.range(250, 400) : (size_t)r.range(1, 30); if (fmt.size() + n > 900) n = 10; for (size_t k = 0; k < n; k++) fmt.push_back(lit[r.below(sizeof lit - 1)]); break; }
         case 3: case 4: { size_t n = sizecls(); if (fmt.size() + n > 900) n = 5; fmt += "%{snoopy_literal:" + value(n) + "}"; break; }
         case 5: case 6: { size_t n = r.chance(1, 3) ? (size_t)pick_limit(r, 2047) : sizecls(); if (n > 300000) n = 300000; std::string var = "VAR" + std::to_string(i); w.env.push_back(var + "=" + value(n)); fmt += "%{env:" + var + "}"; break; }
-        case 7: if (!used_cmdline) { used_cmdline = true; size_t n = r.chance(1, 3) ? (size_t)pick_limit(r, 2047) : sizecls(); if (n > 300000) n = 300000; e.argv = {value(n)}; if (n == 0) { e.argv = {"", ""}; vals.a.back() = J(1L); vlen.back() = 1; } fmt += "%{cmdline}"; } break;
+        case 7: if (!used_cmdline) { used_cmdline = true; size_t n = r.chance(1, 3) ? (size_t)pick_limit(r, 2047) : sizecls(); if (n > 300000) n = 300000; e.argv = {value(n)}; if (n == 0) { e.argv = {"", ""}; vals.a.back() = J(1L); vlen.back() = 1; }
+            else if (n >= 4 && r.chance(1, 2)) {   // the same text as several arguments: boundaries between arguments fall at, just before and just after the limit
+                std::string v = e.argv[0]; std::vector<size_t> cut;
+                int nc = (int)r.below(4); for (int k = 0; k < nc; k++) cut.push_back((size_t)r.range(1, (int64_t)n - 2));
+                if (r.chance(2, 3)) cut.push_back(n - (size_t)r.range(1, 3));
+                for (size_t c : cut) if (c > 0 && c < n - 1) v[c] = ' ';
+                e.argv.clear(); size_t from = 0;
+                for (size_t k = 0; k <= v.size(); k++) if (k == v.size() || v[k] == ' ') { e.argv.push_back(v.substr(from, k - from)); from = k + 1; }
+                if (r.chance(1, 3)) { e.argv.push_back(""); vals.a.back() = J((long)n + 1); vlen.back() = (long)n + 1; }
+            }
+            fmt += "%{cmdline}"; } break;
         case 8: if (!used_filename) { used_filename = true; size_t n = (size_t)r.range(1, 600); e.path = value(n); fmt += "%{filename}"; } break;
         case 9: fmt += r.chance(1, 2) ? "%{failure}" : "%{nosuch" + std::string(r.chance(1, 2) ? ":arg" : "") + "}"; break;
         case 10: { static const char *odd[] = {"%{}", "%{:x}", "%{noop}", "%{noop:arg}", "%{cwd}", "%{failure}"}; fmt += odd[r.below(6)]; break; }   // data sources that write nothing / fail
@@ -62,6 +74,11 @@ static Plan gen_c05(uint64_t seed, const std::string &tier) {
     while (!fmt.empty() && (fmt[0] == ' ' || fmt[0] == '"' || fmt[0] == '\'' )) fmt.erase(0, 1);
     CfgSpec s; s.has_format = true; s.format = fmt;
     s.has_dsmax = true; s.dsmax = std::to_string(pick_limit(r, biggest));
+    if (used_cmdline && e.argv.size() >= 2 && r.chance(1, 2)) {   // the limit falls exactly on (or next to) a boundary between two arguments
+        size_t k = (size_t)r.range(1, (int64_t)e.argv.size() - 1); long len = (long)k - 1; for (size_t i = 0; i < k; i++) len += (long)e.argv[i].size();
+        len += r.chance(1, 2) ? 0 : r.range(-1, 1);
+        if (len >= 255 && len <= 1048575) s.dsmax = std::to_string(len);
+    }
     // the message limit is aimed at the exact length of the expansion after each piece of the format (+-2), computed
     // with the reference expansion: boundaries in front of every "%{" and behind every "}"
     {
@@ -86,6 +103,21 @@ static Plan gen_c05(uint64_t seed, const std::string &tier) {
     p.extra.set("vals", vals);
     return p;
 }
+// a message in which some value was cut: literals and the values that fit appear verbatim and in order, and in the place of every
+// cut value stands a prefix of it of at most datasource_message_max_length bytes
+static bool match_segments(const std::vector<Expansion::Seg> &segs, const std::string &rec, long dsmax) {
+    std::set<std::pair<size_t, size_t>> seen;
+    std::function<bool(size_t, size_t)> go = [&](size_t i, size_t pos) -> bool {
+        if (i == segs.size()) return pos == rec.size();
+        if (!seen.insert({i, pos}).second) return false;
+        const Expansion::Seg &s = segs[i];
+        if (!s.variable) { if (pos + s.text.size() > rec.size() || rec.compare(pos, s.text.size(), s.text) != 0) return false; return go(i + 1, pos + s.text.size()); }
+        size_t lcp = 0; while (lcp < s.text.size() && pos + lcp < rec.size() && lcp < (size_t)dsmax && rec[pos + lcp] == s.text[lcp]) lcp++;
+        for (size_t k = lcp + 1; k-- > 0;) if (go(i + 1, pos + k)) return true;
+        return false;
+    };
+    return go(0, 0);
+}
 static Verdict oracle_c05(const Plan &p, const RunResult &r) {
     Verdict v = judge_all(p, r);
     if (v.violated) return v;
@@ -97,6 +129,8 @@ static Verdict oracle_c05(const Plan &p, const RunResult &r) {
         if (rec.empty()) continue;
         if (rec.back() == '\n') rec.pop_back();
         if ((long)rec.size() > e.cfg.logmax) return bad("message-over-limit", "message of " + std::to_string(rec.size()) + " bytes with log_message_max_length = " + std::to_string(e.cfg.logmax));
+        if (!e.msg.exact && e.msg.segs_ok && e.msg.cut_total <= e.cfg.logmax && !e.cfg.error_logging && !match_segments(e.msg.segs, rec, e.cfg.dsmax))
+            return bad("cut-message-structure", "call #" + std::to_string(cv.opi) + ": some value exceeds datasource_message_max_length = " + std::to_string(e.cfg.dsmax) + " and the whole still fits log_message_max_length, but the record is not 'literals and fitting values verbatim, a prefix of at most that many bytes for each cut value': " + show(rec, 160));
         const J &vals = p.extra.at("vals");
         for (size_t i = 0; i < vals.a.size() && i < 26; i++) {
             long cnt = (long)std::count(rec.begin(), rec.end(), (char)('a' + i));
@@ -318,12 +352,19 @@ static Plan gen_c14(uint64_t seed, const std::string &tier) {
     if (items.empty()) items.push_back(std::to_string((uint32_t)(w.uid + 1)));
     std::string L; for (size_t i = 0; i < items.size(); i++) { if (i) L += ","; L += items[i]; }
     L = L.substr(0, 900); while (!L.empty() && L.back() == ',') L.pop_back();
-    for (auto &chain : {"only_uid:" + L, "exclude_uid:" + L, std::string("only_root")}) {
-        CfgSpec s; s.has_chain = true; s.chain = chain; s.has_format = true; s.format = "logged"; s.has_output = true; s.output = "file:/log/c14";
-        p.ops.push_back(op_setconfig(s.render(r, true)));
-        ExecOp e; e.path = "/bin/x"; e.argv = {"x"}; p.ops.push_back(op_exec(e));
+    // the process may change its real uid between two execs (a daemon dropping privileges after a failed exec, su): the second round
+    // of calls is decided by the uid the process has then
+    bool second = r.chance(1, 2);
+    uint32_t uid2 = w.uid == 0 ? (uint32_t)r.range(1, 70000) : r.chance(1, 3) ? 0u : want_member ? (uint32_t)(w.uid + 1) : (items.empty() ? w.uid + 1 : (uint32_t)strtoull(items[r.below(items.size())].c_str(), 0, 10));
+    for (int round = 0; round < (second ? 2 : 1); round++) {
+        if (round == 1) { Op m; m.op = "Mutate"; m.patch = J::obj(); m.patch.set("uid", (unsigned long long)uid2); p.ops.push_back(m); }
+        for (auto &chain : {"only_uid:" + L, "exclude_uid:" + L, std::string("only_root")}) {
+            CfgSpec s; s.has_chain = true; s.chain = chain; s.has_format = true; s.format = "logged"; s.has_output = true; s.output = "file:/log/c14";
+            p.ops.push_back(op_setconfig(s.render(r, true)));
+            ExecOp e; e.path = "/bin/x"; e.argv = {"x"}; p.ops.push_back(op_exec(e));
+        }
     }
-    p.extra.set("member", want_member); p.extra.set("pos", pos); p.extra.set("n", (long)items.size());
+    p.extra.set("member", want_member); p.extra.set("pos", pos); p.extra.set("n", (long)items.size()); p.extra.set("uid_changes", second);
     return p;
 }
 static Verdict oracle_c14(const Plan &p, const RunResult &r) {
@@ -332,6 +373,10 @@ static Verdict oracle_c14(const Plan &p, const RunResult &r) {
     auto calls = calls_of(p);
     bool a = !file_record(r, 0, "/log/c14").empty(), b = !file_record(r, 1, "/log/c14").empty();
     if (a == b) return bad("uid-filters-agree", "only_uid and exclude_uid with the same list both " + std::string(a ? "log" : "drop") + " for uid " + std::to_string(calls[0].w.uid));
+    if (calls.size() >= 5) {
+        bool a2 = file_record(r, calls[3].opi, "/log/c14").size() > 0, b2 = file_record(r, calls[4].opi, "/log/c14").size() > 0;
+        if (a2 == b2) return bad("uid-filters-agree", "after the uid change: only_uid and exclude_uid with the same list both " + std::string(a2 ? "log" : "drop") + " for uid " + std::to_string(calls[3].w.uid));
+    }
     return ok();
 }
 static void describe_c14(const Plan &p, const RunResult &r, J &line) {
@@ -343,6 +388,7 @@ static void describe_c14(const Plan &p, const RunResult &r, J &line) {
     if (w.uid >= 2147483648u) line.set("p_uid_ge_2_31", true);
     if (mem && n >= 100 && pos >= n - 2) line.set("p_match_last_of_many", true);
     if (!mem) line.set("p_near_miss_only", true);
+    if (p.extra.getb("uid_changes")) line.set("p_uid_changes_between_calls", true);
 }
 static Reg reg_c14({"C14", gen_c14, oracle_c14, nullptr, describe_c14});
 
@@ -368,19 +414,31 @@ static Plan gen_c15(uint64_t seed, const std::string &tier) {
     if (r.chance(1, 4)) { fail_depth = (int)r.range(1, depth); w.procs[(size_t)fail_depth].stat_errno = r.chance(1, 2) ? 2 : 13; }
     if (r.chance(1, 10)) { w.procs.erase(w.procs.begin() + (long)r.range(1, (int)w.procs.size() - 1)); }   // ancestor vanished
     // the list
-    int n = (int)(r.chance(1, 8) ? r.range(20, 50) : r.range(1, 5));
-    std::vector<std::string> L; int mode = (int)r.below(4); int match_pos = -1;
-    for (int i = 0; i < n; i++) L.push_back(r.chance(1, 6) ? "" : std::string(names[r.below(15)]) + (r.chance(1, 2) ? "_no" : "x"));
-    if (mode == 0) { match_pos = (int)r.range(1, (int)w.procs.size() - 1); L[r.below(L.size())] = w.procs[(size_t)match_pos].comm; }
-    else if (mode == 1) { L[r.below(L.size())] = w.procs[0].comm; for (size_t k = 1; k < w.procs.size(); k++) if (w.procs[k].comm == w.procs[0].comm) w.procs[k].comm = "other"; }   // only the process itself is listed
-    else if (mode == 2) { std::string c = w.procs[(size_t)r.range(1, (int)w.procs.size() - 1)].comm; L[r.below(L.size())] = r.chance(1, 2) ? c.substr(0, c.size() > 1 ? c.size() - 1 : 1) + (c.size() > 1 ? "" : "q") : c + "2"; }  // prefix / extension near miss
-    if (r.chance(1, 4) && !L.empty()) L.push_back(L[r.below(L.size())]);
-    std::string arg; for (size_t i = 0; i < L.size(); i++) { if (i) arg += ","; arg += L[i]; }
-    for (auto &ch : arg) if (ch == ';') ch = '_';
-    while (!arg.empty() && (arg.back() == ' ' || arg.back() == ',')) arg.pop_back();
-    CfgSpec s; s.has_chain = true; s.chain = "exclude_spawns_of:" + arg.substr(0, 900); s.has_format = true; s.format = "logged"; s.has_output = true; s.output = "file:/log/c15";
+    int mode = (int)r.below(4); int match_pos = -1;
+    auto make_list = [&](int md, size_t maxlen) {
+        int n = (int)(r.chance(1, 8) ? r.range(20, 50) : r.range(1, 5));
+        std::vector<std::string> L;
+        for (int i = 0; i < n; i++) L.push_back(r.chance(1, 6) ? "" : std::string(names[r.below(15)]) + (r.chance(1, 2) ? "_no" : "x"));
+        if (md == 0) { match_pos = (int)r.range(1, (int)w.procs.size() - 1); L[r.below(L.size())] = w.procs[(size_t)match_pos].comm; }
+        else if (md == 1) { L[r.below(L.size())] = w.procs[0].comm; for (size_t k = 1; k < w.procs.size(); k++) if (w.procs[k].comm == w.procs[0].comm) w.procs[k].comm = "other"; }   // only the process itself is listed
+        else if (md == 2) { std::string c = w.procs[(size_t)r.range(1, (int)w.procs.size() - 1)].comm; L[r.below(L.size())] = r.chance(1, 2) ? c.substr(0, c.size() > 1 ? c.size() - 1 : 1) + (c.size() > 1 ? "" : "q") : c + "2"; }  // prefix / extension near miss
+        if (r.chance(1, 4) && !L.empty()) L.push_back(L[r.below(L.size())]);
+        std::string arg; for (size_t i = 0; i < L.size(); i++) { if (i) arg += ","; arg += L[i]; }
+        for (auto &ch : arg) if (ch == ';') ch = '_';
+        while (!arg.empty() && (arg.back() == ' ' || arg.back() == ',')) arg.pop_back();
+        return arg.substr(0, maxlen);
+    };
+    int shape = (int)r.below(6);   // 0-3 one filter, one call; 4 two instances with different lists in one chain; 5 a second call of the process under another list
+    CfgSpec s; s.has_chain = true; s.has_format = true; s.format = "logged"; s.has_output = true; s.output = "file:/log/c15";
+    if (shape == 4) { int m2 = mode == 0 ? (int)r.range(1, 3) : 0; bool first = r.chance(1, 2); std::string a = make_list(first ? mode : m2, 440), b = make_list(first ? m2 : mode, 440); s.chain = "exclude_spawns_of:" + a + ";exclude_spawns_of:" + b; }
+    else s.chain = "exclude_spawns_of:" + make_list(mode, 900);
     p.ops.push_back(op_setconfig(s.render(r, true)));
     ExecOp e; e.path = "/bin/x"; e.argv = {"x"}; p.ops.push_back(op_exec(e));
+    if (shape == 5) {   // the exec failed (PATH walk) and the process tries again after snoopy.ini was edited: the verdict belongs to the list of the call
+        CfgSpec s2 = s; s2.chain = "exclude_spawns_of:" + make_list(mode == 0 ? (int)r.range(1, 3) : 0, 900);
+        p.ops.push_back(op_setconfig(s2.render(r, true)));
+        ExecOp e2; e2.path = "/usr/bin/x"; e2.argv = {"x"}; p.ops.push_back(op_exec(e2));
+    }
     p.extra.set("depth", depth); p.extra.set("mode", mode); p.extra.set("match_pos", match_pos); p.extra.set("fail_depth", fail_depth);
     return p;
 }
@@ -614,7 +672,12 @@ static std::string c02_config(Rng &r, const World &w, J &probes) {
         case 0: s.output = "devlog"; s.has_ident = true; s.ident = std::string((size_t)r.range(250, 400), 'I'); break;
         case 1: s.output = "devlog"; s.has_ident = true; s.ident = "%{env:LONGPATH}"; extra = std::string((size_t)r.range(250, 5000), 'e'); break;
         case 2: s.output = "file:/log/%{env:LONGPATH}"; extra = std::string((size_t)r.range(4090, 9000), 'p'); break;
-        default: s.output = r.chance(1, 2) ? "devlog" : "stderr"; s.has_logmax = true; s.logmax = "255"; s.has_format = true; s.format = std::string(300, 'M') + "%{cmdline}"; break;
+        default: {   // the message itself overflows, with more tags to come; the error record goes through an output that formats its own path or ident
+            static const char *o[] = {"devlog", "stderr", "file:/log/err.log", "file:/log/%{username}-%{datetime:%Y}.log", "devtty", "socket:/run/snoopy-0.sock"};
+            s.output = o[r.below(6)]; s.has_logmax = true; s.logmax = r.chance(1, 2) ? "255" : std::to_string(r.range(255, 400));
+            if (r.chance(1, 2)) { s.has_dsmax = true; s.dsmax = r.chance(1, 2) ? "255" : std::to_string(r.range(255, 5000)); }
+            s.has_format = true; s.format = (r.chance(1, 2) ? std::string(300, 'M') : "%{filename} %{cmdline} ") + "%{cmdline} %{filename} %{env:LONGPATH} %{uid}"; if (r.chance(1, 2)) extra = std::string((size_t)r.range(100, 3000), 'e');
+            break; }
         }
         probes.set("p_errlog_at_limit", true); break; }
     case 14: { s.has_format = true; s.format = "%{login}|%{username}|%{tty_username}"; probes.set("loginlen", (long)r.range(252, 256)); probes.set("p_login_at_buffer_size", true); break; }
